@@ -241,7 +241,10 @@ def main():
             v["replay_output"] = out[-1500:]
         new_violations.append(v)
 
-    rdir = os.path.join(ROOT, "replays", pid)
+    # runs against a mutated copy (VERIF_REPO set by tools/mutate.py / tools/seeded.py) must not overwrite the evidence and
+    # replays of the real tree
+    scratch_out = (os.path.realpath(REPO) != "/repo")
+    rdir = os.path.join(bdir, "replays") if scratch_out else os.path.join(ROOT, "replays", pid)
     if new_violations:
         shutil.rmtree(rdir, ignore_errors=True)
         os.makedirs(rdir, exist_ok=True)
@@ -277,7 +280,7 @@ def main():
           "assumptions": chk.get("assumptions", []), "wall_s": round(time.time() - t0, 2),
           "violations": len(new_violations)}
     os.makedirs(os.path.join(ROOT, "evidence"), exist_ok=True)
-    json.dump(ev, open(os.path.join(ROOT, "evidence", pid + ".json"), "w"), indent=1)
+    json.dump(ev, open(os.path.join(bdir, "evidence_mutant.json") if scratch_out else os.path.join(ROOT, "evidence", pid + ".json"), "w"), indent=1)
     print("%s tier=%s evaluations=%d nontrivial=%d states=%d transitions=%d exhaustive=%s violations=%d known=%d wall=%.1fs" % (
         pid, tier, merged["evaluations"], merged["nontrivial"], merged["states"], merged["transitions"],
         merged["exhaustive"], len(new_violations), len(printed), time.time() - t0), flush=True)
